@@ -251,6 +251,15 @@ fn run_suite<S: ShortGroupSignatureScheme>(v: &Value, ps: bool) -> Value {
             _ => {}
         }
     }
+    if devk == "eq_disc_reverse_exploit" {
+        // the holder bets on a verifier that looks responses up along the proof's OWN (reversed) list of disclosed pairs: the
+        // equality's shared nonce goes to the claim whose response such a walk would hand out, which holds the matching value
+        let t = dev["stmt"].as_str().unwrap_or("").to_string();
+        let (ec, sc) = (dev["eq_claim"].as_u64().unwrap_or(3) as usize, dev["shift_claim"].as_u64().unwrap_or(4) as usize);
+        if let Some(n) = shared.shift_remove(&(t.clone(), ec)) {
+            shared.insert((t, sc), n);
+        }
+    }
     if devk == "eq_independent_nonces" {
         // deviating holder: every referenced claim gets its own nonce
         let keys: Vec<_> = shared.keys().cloned().collect();
@@ -496,7 +505,7 @@ fn run_suite<S: ShortGroupSignatureScheme>(v: &Value, ps: bool) -> Value {
                         rep.insert(b, ca);
                     }
                 }
-                "disc_reverse" => disclosed.reverse(),
+                "disc_reverse" | "eq_disc_reverse_exploit" => disclosed.reverse(),
                 "disc_dup" => {
                     if let Some(f) = disclosed.first().cloned() {
                         // IndexMap keys are unique: a duplicate index can only be expressed by an out-of-range alias
